@@ -32,6 +32,7 @@ func c16(c *Ctx) {
 	c16R7(c)
 	c16R8(c)
 	c16R9(c)
+	c16R11(c)
 	loadIntermediateRoles(c, c.R.Rule("R10", "recovery keeps the roles of the two validator sets: LoadIntermediate hands every field of the saved intermediate state to the setBlockAndValidators parameter of the same role (Validators / LastValidators swapped leaves a recovered replica one rotation behind)", 6))
 }
 
